@@ -253,10 +253,29 @@ func walk(l fp.List[int], max int) []int {
 	return got
 }
 
+// walkTailsFirst reaches every cell through Tail() alone and only then reads the heads, last cell first: the
+// order in which a consumer demands heads and tails must not matter
+func walkTailsFirst(l fp.List[int], n int) []int {
+	cells := []fp.List[int]{l}
+	for i := 0; i < n; i++ {
+		cells = append(cells, cells[i].Tail())
+	}
+	got := make([]int, n)
+	for i := n - 1; i >= 0; i-- {
+		got[i] = cells[i].Head()
+	}
+	return got
+}
+
 func ldrain(p lprod) {
 	n := zz.Bound("inlen12", 3, 4)
 	in := zz.SliceInt("in", n, 0, 0)
 	l, exp := p.mk(in)
+	if zz.Bool("tails.first") {
+		zz.Assert(sliceEq(walkTailsFirst(l, len(exp)), exp), p.name+": tails demanded before heads still give the eager result in order")
+		zz.Assert(sliceEq(walk(l, len(exp)+1), exp), p.name+": ordinary traversal after the tail-first one")
+		return
+	}
 	zz.Assert(sliceEq(walk(l, len(exp)+1), exp), p.name+": Head/Tail traversal yields the eager result in order")
 	zz.Assert(l.IsEmpty() == (len(exp) == 0) && l.NonEmpty() == (len(exp) > 0), p.name+": IsEmpty/NonEmpty")
 	zz.Assert(sliceEq(walk(l, len(exp)+1), exp), p.name+": second traversal sees the same list")
